@@ -45,7 +45,7 @@ func init() {
 	}
 	register(&PropSpec{
 		ID: "C11",
-		Explanation: "Decides structurally: (E8.enc) no string produced by url.Values.Encode / url.QueryEscape is stored into URL.Fragment / Path / Opaque or passed to Values.Set/Add anywhere in pkg/op, pkg/client, pkg/http (they would be encoded twice); setFragment stores params.Encode() into RawFragment; mergeQueryParams starts from uri.Query(), only Adds, and writes RawQuery; AuthResponseURL selects query vs fragment by response_mode / response_type exactly as specified and encodes the response with the configured encoder, which is oidc.NewEncoder() with the SpaceDelimitedArray encoder; (E7) the form_post page is rendered by html/template, every template action sits inside a double-quoted attribute value, each parameter slot posts under its own name, the seven standard parameters have slots and every slot is a schema field of a rendered response; the page is written only after rendering succeeded. Known finding: the action URL slot is subject to html/template's scheme filter. Does not decide byte-exact round trips through url.Values.Encode and a user agent (stdlib behaviour).",
+		Explanation: "Decides structurally: (E8.enc) no string produced by url.Values.Encode / url.QueryEscape is stored into URL.Fragment / Path / Opaque or passed to Values.Set/Add anywhere in pkg/op, pkg/client, pkg/http (they would be encoded twice); setFragment stores params.Encode() into RawFragment; mergeQueryParams starts from uri.Query(), only Adds, and writes RawQuery; AuthResponseURL selects query vs fragment by response_mode / response_type exactly as specified and encodes the response with the configured encoder, which is oidc.NewEncoder() with the SpaceDelimitedArray encoder; (E7) the form_post page is rendered by html/template, every template action sits inside a double-quoted attribute value, each parameter slot posts under its own name, the seven standard parameters have slots and every slot is a schema field of a rendered response; the page is written only after rendering succeeded. Known finding: the action URL slot is subject to html/template's scheme filter. Does not decide byte-exact round trips through url.Values.Encode and a user agent (stdlib behaviour). Round 3: the request decoder and response encoder are plain (no converters / extra encoders); no middleware installed by the library rewrites the request URL, query or form; AuthRequest getters return the parsed parameter itself.",
 		RuleText:    "obligation = (rule, function or template, construct); non-trivial when an encoded value, guard fact or table row is involved",
 		Assumptions: []string{"url.Values.Encode / URL.String / html/template escape correctly", "user agents decode fragments and submit forms per HTML"},
 		Trusted:     []string{"go/types, go/cfg (x/tools v0.50.0)", "net/url", "html/template", "text/template/parse", "zitadel/schema encoder"},
